@@ -66,7 +66,10 @@ type PFCPConn struct {
 
 	metrics.InstrumentPFCP
 
-	hbReset     chan struct{}
+	hbReset chan struct{}
+	// hbMu guards hbCtxCancel: every heartbeat monitor runs in a goroutine of its own,
+	// and the teardown that cancels it may run in yet another one.
+	hbMu        sync.Mutex
 	hbCtxCancel context.CancelFunc
 
 	pendingReqs sync.Map
@@ -77,6 +80,16 @@ type PFCPConn struct {
 }
 
 func (pConn *PFCPConn) startHeartBeatMonitor() {
+	pConn.hbMu.Lock()
+
+	select {
+	case <-pConn.shutdown:
+		// The connection ended before this monitor got to run; nobody would cancel it.
+		pConn.hbMu.Unlock()
+		return
+	default:
+	}
+
 	// Stop HeartBeat routine if already running
 	if pConn.hbCtxCancel != nil {
 		pConn.hbCtxCancel()
@@ -85,6 +98,8 @@ func (pConn *PFCPConn) startHeartBeatMonitor() {
 
 	hbCtx, hbCancel := context.WithCancel(pConn.ctx)
 	pConn.hbCtxCancel = hbCancel
+
+	pConn.hbMu.Unlock()
 
 	logger.PfcpLog.With("interval", pConn.upf.hbInterval).Infoln("starting Heartbeat timer")
 
@@ -247,10 +262,14 @@ func (pConn *PFCPConn) Shutdown() {
 func (pConn *PFCPConn) doShutdown() {
 	close(pConn.shutdown)
 
+	pConn.hbMu.Lock()
+
 	if pConn.hbCtxCancel != nil {
 		pConn.hbCtxCancel()
 		pConn.hbCtxCancel = nil
 	}
+
+	pConn.hbMu.Unlock()
 
 	// Cleanup all sessions in this conn. A session request that the receive goroutine is
 	// handling right now finishes first: its session would be missed here, stay in the
